@@ -49,9 +49,9 @@ Theorem C18_series_query_is_read_by_the_trained_width :
   m_fitted m = true ->
   mab_num_features aeqb m = Some nf ->
   sstep N aeqb RG m (SPredictExpS vals orc) =
-  step N aeqb RG m (PredictExp (Some (if nf =? 1 then as_column vals else as_row vals)) orc) /\
+  vstep N aeqb RG m (PredictExp (Some (if nf =? 1 then as_column vals else as_row vals)) orc) /\
   sstep N aeqb RG m (SPredictS vals orc) =
-  step N aeqb RG m (Predict (Some (if nf =? 1 then as_column vals else as_row vals)) orc).
+  vstep N aeqb RG m (Predict (Some (if nf =? 1 then as_column vals else as_row vals)) orc).
 Proof. exact @series_query_is_read_by_the_trained_width. Qed.
 Print Assumptions C18_series_query_is_read_by_the_trained_width.
 
